@@ -966,7 +966,7 @@ impl Prioritize {
     pub(super) fn verif_json(&self) -> String {
         format!(
             "\"send_window\":{},\"send_available\":{},\"max_buffer_size\":{}",
-            self.flow.window_size(),
+            self.flow.verif_window(),
             isize::from(self.flow.available()),
             self.max_buffer_size,
         )
